@@ -89,7 +89,11 @@ impl Function for RandomBytes {
 }
 
 fn get_length(value: Value) -> std::result::Result<usize, &'static str> {
-    let length = value.try_integer().expect("length must be an integer");
+    // The compiler checks the argument type, but a value read from the target can still differ at
+    // runtime (e.g. a target that rejected the read): report it instead of panicking.
+    let length = value
+        .try_integer()
+        .map_err(|_| "length must be an integer")?;
     if length < 0 {
         return Err(LENGTH_TOO_SMALL_ERR);
     }
